@@ -168,6 +168,50 @@ def gen_dep_program(rng, steer=None):
     return {"spec": spec, "defs": defs, "utab": {str(k): v for k, v in utab.items()}, "calls": calls}
 
 
+def directed_kw_programs(rng):
+    """every branch of the three generated strategies (lookup table / if-chain / counting), each reached with a keyword
+    argument in the call: a handler matched, none matched with and without a method to fall through to, two matched.
+    The value-dependent parameter is the positional one (the keyword one is static) or the keyword one."""
+    out = []
+    for pool in ([1, 2, 3, 7, 8], ["a", "ab", "b", "abc", "xb"]):
+        cls = INT if isinstance(pool[0], int) else STR
+        other = "zz" if cls == STR else 99
+        for shape in ("one", "chain3", "table4", "table5", "overlap2", "overlap3", "preds2"):
+            for fallback in (False, True):
+                for where in ("pos", "kw"):
+                    spec = random_spec(rng, n_user=1, kinds=("plain",))
+                    w = World(spec)
+                    utab = {}
+                    if shape == "one":
+                        types = [[8, [0, cls], enc_val(pool[0])]]
+                    elif shape in ("chain3", "table4", "table5"):
+                        k = int(shape[-1])
+                        types = [[8, [0, cls], enc_val(pool[i])] for i in range(k)]
+                    elif shape in ("overlap2", "overlap3"):
+                        k = int(shape[-1])
+                        types = [[8, [0, cls], enc_val(pool[i]), enc_val(pool[i + 1])] for i in range(k)]
+                    else:
+                        utab = {10: [enc_val(pool[0]), enc_val(pool[1])], 11: [enc_val(pool[1]), enc_val(pool[2])]}
+                        types = [[9, 10, [0, cls]], [9, 11, [0, cls]]]
+                    defs = []
+                    for i, t in enumerate(types):
+                        if where == "pos":
+                            defs.append({"id": i, "pos": [t], "npos_req": 1, "kw": [[0, [0, 0], True]], "prio": 0})
+                        else:
+                            defs.append({"id": i, "pos": [[0, 0]], "npos_req": 1, "kw": [[0, t, True]], "prio": 0})
+                    if fallback:
+                        defs.append({"id": 20, "pos": [[0, 0]], "npos_req": 1, "kw": [[0, [0, 0], True]], "prio": 0})
+                    calls = []
+                    for v in pool + [other]:
+                        free = enc_val(rng.choice([5, "q", other]))
+                        if where == "pos":
+                            calls.append({"vals": [enc_val(v)], "kwvals": {"0": free}})
+                        else:
+                            calls.append({"vals": [free], "kwvals": {"0": enc_val(v)}})
+                    out.append({"spec": spec, "defs": defs, "utab": {str(k): v for k, v in utab.items()}, "calls": calls})
+    return out
+
+
 def slot_args(vals):
     return [[[0, i], v] for i, v in enumerate(vals)]
 
@@ -246,18 +290,29 @@ def doc_le(w, ta, tb):
     return None
 
 
-def py_spec_dep(w, b, defs, vals):
-    """outcome by the documented rule, or None when some annotation is outside the fragment the rule is stated for"""
+def py_spec_dep(w, b, defs, vals, kwvals=None):
+    """outcome by the documented rule, or None when some annotation is outside the fragment the rule is stated for.
+    kwvals: {keyword id: value} -- handled when every method that could apply declares exactly the supplied keywords
+    (the rule then compares the keyword slots like further positions); None otherwise"""
     from .c10 import py_isinstance
+    kwvals = kwvals or {}
     hold = []
+    slots = {}
     for d in defs:
         if len(d["pos"]) != len(vals):
             continue
-        oks = [py_isinstance(v, b.ty(t)) for v, t in zip(vals, d["pos"])]
+        dkw = {int(k): (t, req) for (k, t, req) in d.get("kw", [])}
+        if set(dkw) != set(kwvals):
+            if set(kwvals) <= set(dkw) and not any(req for k, (t, req) in dkw.items() if k not in kwvals):
+                return None         # optional keywords left out: outside the fragment handled here
+            continue                # a keyword it does not declare, or a required one missing: not applicable
+        ts = list(d["pos"]) + [dkw[k][0] for k in sorted(dkw)]
+        oks = [py_isinstance(v, b.ty(t)) for v, t in zip(list(vals) + [kwvals[k] for k in sorted(dkw)], ts)]
         if any(o is not True and o is not False for o in oks):
             return None
         if all(oks):
             hold.append(d)
+            slots[d["id"]] = ts
     if not hold:
         return ["nomethod"]
     order = {d["id"]: i for i, d in enumerate(defs)}
@@ -267,9 +322,9 @@ def py_spec_dep(w, b, defs, vals):
             return True
         if x["prio"] < y["prio"]:
             return False
-        if [model.canon_ty(t) for t in x["pos"]] == [model.canon_ty(t) for t in y["pos"]] and x["npos_req"] == y["npos_req"]:
+        if [model.canon_ty(t) for t in slots[x["id"]]] == [model.canon_ty(t) for t in slots[y["id"]]] and x["npos_req"] == y["npos_req"]:
             return order[x["id"]] > order[y["id"]]          # identical signature: the later registration wins
-        les = [doc_le(w, tx, ty) for tx, ty in zip(x["pos"], y["pos"])]
+        les = [doc_le(w, tx, ty) for tx, ty in zip(slots[x["id"]], slots[y["id"]])]
         if any(l is None for l in les):
             return None
         return all(les)
@@ -286,9 +341,19 @@ def py_spec_dep(w, b, defs, vals):
     return ["ambig"]
 
 
-def kf01_shape(w, b, defs, vals, impl):
-    """KF-01's deviation shape for value-dependent programs (see resolve_common.kf01_shape_generic)"""
+def kf01_shape(w, b, defs, vals, impl, kwvals=None):
+    """KF-01's deviation shape for value-dependent programs (see resolve_common.kf01_shape_generic); keyword slots (every
+    holder declaring exactly the supplied keywords, as in py_spec_dep) count as further positions"""
     from .c10 import py_isinstance
     from .resolve_common import kf01_shape_generic
-    hold = [d for d in defs if len(d["pos"]) == len(vals) and all(py_isinstance(v, b.ty(t)) is True for v, t in zip(vals, d["pos"]))]
+    kwvals = kwvals or {}
+    hold = []
+    for d in defs:
+        dkw = {int(k): t for (k, t, req) in d.get("kw", [])}
+        if len(d["pos"]) != len(vals) or set(dkw) != set(kwvals):
+            continue
+        ts = list(d["pos"]) + [dkw[k] for k in sorted(dkw)]
+        vs = list(vals) + [kwvals[k] for k in sorted(dkw)]
+        if all(py_isinstance(v, b.ty(t)) is True for v, t in zip(vs, ts)):
+            hold.append(dict(d, pos=ts))
     return kf01_shape_generic(hold, impl, lambda ta, tb: doc_le(w, ta, tb))
